@@ -378,4 +378,8 @@ func checkC19(w *World, r *Report) {
 		r.Check(bad == "" && sawSelf && sawWrap, "C19.P-CLOSER", spec.name, w.pos(fn.Pos()), "the argument itself when it closes, else a no-op closer around it (ReaderFrom preserved)", orStr(bad, "branch missing"))
 	}
 	_ = n
+	ruleTimeConservation(w, r, "C19")
+	ruleSamplesReach(w, r, "C19")
+	ruleUnwrap(w, r, "C19")
+	ruleLoopVarCapture(w, r, "C19.LOOPVAR")
 }
